@@ -6,4 +6,5 @@ trap 'rm -rf "$D"' EXIT
 mkdir -p "$D/repo" "$D/out"
 cp -r /repo/ahrs "$D/repo/ahrs"
 (cd "$D/repo" && patch -p1 -s < "$P") || { echo "PATCH DID NOT APPLY"; exit 3; }
-AHRS_REPO="$D/repo" VERIF_OUT_DIR="$D/out" "$(dirname "$0")/../check" "$ID" "$TIER" 2>&1 | grep -E "VIOLATION|MACHINERY|evaluations" | sed 's/replay=[^ ]* //' | cut -c1-200 | head -${MUT_LINES:-4}
+# a mutant may make a call loop for ever: the unchanged tree answers every call in milliseconds, so the per-call CPU limit and the tier watchdog are tightened for these runs
+VERIF_CALL_CPU_LIMIT=${VERIF_CALL_CPU_LIMIT:-30} VERIF_QUICK_LIMIT=${VERIF_QUICK_LIMIT:-900} AHRS_REPO="$D/repo" VERIF_OUT_DIR="$D/out" "$(dirname "$0")/../check" "$ID" "$TIER" 2>&1 | grep -E "VIOLATION|MACHINERY|evaluations" | sed 's/replay=[^ ]* //' | cut -c1-200 | head -${MUT_LINES:-4}
